@@ -9,11 +9,12 @@ from sim import run_scenario
 from .base import Result, V
 from . import simcommon as SC
 
-MODULES = ['TickitModel.Props.C08', 'TickitModel.Props.C02', 'TickitModel.Props.C03Nested', 'TickitModel.Props.FlatInt', 'TickitModel.Props.C03NestedInt', 'TickitModel.Props.C08NestedAny', 'TickitModel.Props.C08NestedAnyRun', 'TickitModel.Props.C08NestedAnyEx', 'TickitModel.Props.C08NestedInter', 'TickitModel.Props.C08NestedInterRun', 'TickitModel.Props.C08NestedInterEx2']
+MODULES = ['TickitModel.Props.C08', 'TickitModel.Props.C02', 'TickitModel.Props.C03Nested', 'TickitModel.Props.FlatInt', 'TickitModel.Props.C03NestedInt', 'TickitModel.Props.C08NestedAny', 'TickitModel.Props.C08NestedAnyRun', 'TickitModel.Props.C08NestedAnyEx', 'TickitModel.Props.C08NestedInter', 'TickitModel.Props.C08NestedInterRun', 'TickitModel.Props.C08NestedInterEx2', 'TickitModel.Props.C08Msg', 'TickitModel.Props.C08MsgRun']
 THEOREMS = ['tickRun_deterministic', 'schedule_independent', 'tick_deterministic', 'nested_schedule_independent', 'schedule_independentI', 'nested_schedule_independent_int',
             'fifo_is_any', 'any_order_frame', 'nested_any_order_deterministic', 'any_order_same_start', 'any_order_agrees_with_fifo', 'any_order_same_observations', 'any_order_fifo_exists',
             'fifo_run_is_any', 'any_order_run_deterministic', 'any_order_run_agrees_with_fifo', 'any_order_run_inputs_synced', 'any_order_run_has_fifo', 'any_order_run_refines_flatRun',
-            'atomic_is_interleaved', 'fifo_is_interleaved', 'interleaved_has_atomic', 'interleaved_equiv_atomic', 'interleaved_agrees_with_every_atomic', 'interleaved_deterministic', 'interleaved_agrees_with_fifo', 'interleaved_fifo_exists', 'interleaved_same_observations', 'interleaved_frame', 'any_run_is_interleaved', 'interleaved_run_has_atomic_run', 'interleaved_run_deterministic', 'interleaved_run_agrees_with_fifo', 'interleaved_run_refines_flatRun']
+            'atomic_is_interleaved', 'fifo_is_interleaved', 'interleaved_has_atomic', 'interleaved_equiv_atomic', 'interleaved_agrees_with_every_atomic', 'interleaved_deterministic', 'interleaved_agrees_with_fifo', 'interleaved_fifo_exists', 'interleaved_same_observations', 'interleaved_frame', 'any_run_is_interleaved', 'interleaved_run_has_atomic_run', 'interleaved_run_deterministic', 'interleaved_run_agrees_with_fifo', 'interleaved_run_refines_flatRun',
+            'msg_step_refines', 'msg_tick_refines', 'msg_abs_is_abstraction', 'msg_trace_transfer', 'msg_no_failure', 'msg_react_at_most_once', 'msg_react_after_upstreams', 'msg_complete_all_consumed', 'msg_observations_exact', 'msg_tick_deterministic', 'msg_bus_contract', 'msgTopic_name_injective', 'msg_run_refines_flatRun', 'msg_run_schedule_independent', 'msg_run_tick_is_msg_tick']
 ANCHORS = ["src/tickit/core/management/ticker.py", "src/tickit/core/management/schedulers/base.py",
            "src/tickit/core/state_interfaces/state_interface.py", "src/tickit/core/state_interfaces/internal.py",
            "src/tickit/core/state_interfaces/kafka.py", "src/tickit/core/components/component.py"]
@@ -21,7 +22,7 @@ TECHNIQUE = "Lean 4 theorems (every answer order of every tick yields the same d
 LEVEL_TEXT = ("Theorems over the flat multi-tick model: two complete runs of one tick with any two answer orders give every component the same dispatch "
               "(strong induction on the acyclicity rank), and by induction over the tick sequence two runs of the same simulation have the same tick "
               "times and the same per-device (time, inputs) sequences, for deterministic devices; the same holds for histories WITH external stimuli applied between ticks (schedule_independentI: same script of ticks and stamped interrupts => same tick times, observations and wakeups, whatever the answer orders). For nested simulations the whole-simulation model (first-in first-out inside nested schedulers) is proved to have exactly the observations of "
-              "EVERY flat run over the resolved wiring, whatever its answer orders (nested_schedule_independent; with timely external stimuli: nested_schedule_independent_int); ARBITRARY ANSWER ORDERS AT EVERY LEVEL OF NESTING (Core/SimAny, Props/C08NestedAny, C08NestedAnyRun): TickLevelAny is the nested tick in which every scheduler level answers ANY pending dispatch next and a system component's answer is any such execution of its inner level; on a valid configuration two executions of the same tick from equivalent states - whatever the answer orders at this level and inside every system component at every depth - end in equivalent states (same device inputs / last outputs / wakeups as mappings, same per-device observation sequences) with the same exposed output changes (nested_any_order_deterministic), the first-in first-out model is one of the executions (fifo_is_any) and completes every tick that has any execution (any_order_fifo_exists), whole runs incl. external stimuli do the same ticks and observations (any_order_run_deterministic), and every any-order run has the observations of a Synced FlatRun over the resolved wiring (any_order_run_refines_flatRun). FULLY INTERLEAVED (Core/SimInter, Props/C08NestedInter, C08NestedInterRun): a small-step semantics in which the inner ticks of sibling system components - at every depth - are open at the same time and their steps interleave arbitrarily (open / answer / close per active level); every atomic execution is an interleaved one (atomic_is_interleaved), every complete interleaved execution has an atomic execution with the same exposed outputs and the same device state, counts, scheduler state and per-device observations under every key (interleaved_has_atomic, by a forward simulation with a virtual state per active level and disjoint footprints), hence determinism, agreement with the first-in first-out model and its existence, the same observations in all interleaved executions, and whole runs over interleaved ticks refine a Synced FlatRun (interleaved_deterministic, interleaved_fifo_exists, interleaved_same_observations, interleaved_run_refines_flatRun). Not proved: that every reachable interleaved configuration can be completed (liveness of the interleaved semantics itself). Tie to the code: every generated simulation is run on the real classes under the "
+              "EVERY flat run over the resolved wiring, whatever its answer orders (nested_schedule_independent; with timely external stimuli: nested_schedule_independent_int); ARBITRARY ANSWER ORDERS AT EVERY LEVEL OF NESTING (Core/SimAny, Props/C08NestedAny, C08NestedAnyRun): TickLevelAny is the nested tick in which every scheduler level answers ANY pending dispatch next and a system component's answer is any such execution of its inner level; on a valid configuration two executions of the same tick from equivalent states - whatever the answer orders at this level and inside every system component at every depth - end in equivalent states (same device inputs / last outputs / wakeups as mappings, same per-device observation sequences) with the same exposed output changes (nested_any_order_deterministic), the first-in first-out model is one of the executions (fifo_is_any) and completes every tick that has any execution (any_order_fifo_exists), whole runs incl. external stimuli do the same ticks and observations (any_order_run_deterministic), and every any-order run has the observations of a Synced FlatRun over the resolved wiring (any_order_run_refines_flatRun). FULLY INTERLEAVED (Core/SimInter, Props/C08NestedInter, C08NestedInterRun): a small-step semantics in which the inner ticks of sibling system components - at every depth - are open at the same time and their steps interleave arbitrarily (open / answer / close per active level); every atomic execution is an interleaved one (atomic_is_interleaved), every complete interleaved execution has an atomic execution with the same exposed outputs and the same device state, counts, scheduler state and per-device observations under every key (interleaved_has_atomic, by a forward simulation with a virtual state per active level and disjoint footprints), hence determinism, agreement with the first-in first-out model and its existence, the same observations in all interleaved executions, and whole runs over interleaved ticks refine a Synced FlatRun (interleaved_deterministic, interleaved_fifo_exists, interleaved_same_observations, interleaved_run_refines_flatRun). Not proved: that every reachable interleaved configuration can be completed (liveness of the interleaved semantics itself). MESSAGE LEVEL (Core/MsgFlat, MsgFlatRun; Props/C08Msg, C08MsgRun): one scheduler level over the contract bus with MESSAGES in flight - per-topic append-only logs, one cursor per consumer and topic, replay from the first offset, the scheduler and every component starting at any moment and in any order, any interleaving of deliveries (a component consuming its Input and producing its Output; the scheduler consuming an Output or its own Skip and producing the newly possible dispatches): every message-level step is a stutter or exactly one step of the answer-level tick system (msg_step_refines, msg_tick_refines, msg_abs_is_abstraction), so everything proved of the answer-level traces holds of every message-level history (msg_trace_transfer): at most one reaction per component and tick, only after its in-tick upstreams were consumed, with exactly the prescribed inputs, whatever the interleaving and the start delays (msg_react_at_most_once, msg_react_after_upstreams, msg_observations_exact, msg_tick_deterministic); over many ticks every message-level run refines a FlatRun with the same tick times and observations, so two runs with different interleavings and start patterns make the same observations (msg_run_refines_flatRun, msg_run_schedule_independent). Not at message level: interrupts, nested schedulers, real time. Tie to the code: every generated simulation is run on the real classes under the "
               "synchronous bus and under a broker-like bus (per-topic FIFO, one pump per consumer) whose delivery order is enumerated exhaustively by "
               "DFS on small configurations (<= 5 components) and sampled on larger flat and nested ones; all per-device observation sequences must "
               "coincide with each other and with the Lean model's.")
